@@ -38,6 +38,16 @@ func c09FileWriterDirect(r *Run, faults bool) {
 			}
 			blocks = append(blocks, blk{n, data})
 		}
+		if it < 6 {
+			// every codec, twice: a block of no rows and no bytes (a timer-driven flush with nothing
+			// pending, rows of a field-less record), first or between others
+			empty := blk{[]int{0, 3}[it/3%2], []byte{}}
+			if it%2 == 0 {
+				blocks = append([]blk{empty}, blocks...)
+			} else {
+				blocks = append(blocks, empty, blk{1, []byte{2}})
+			}
+		}
 		desc := map[string]any{"codec": codec, "blocks": func() (o []string) {
 			for _, b := range blocks {
 				o = append(o, fmt.Sprintf("%d rows / %d bytes", b.n, len(b.data)))
